@@ -158,6 +158,43 @@ def call_api(ssj, case, ltable, rtable, tokenizer):
     return flt.filter_tables(ltable, rtable, *keys, **kw)
 
 
+def execute_filter_pair(case):
+    """filter_pair of the case's filter on every pair of present values of the two tables, presented as the
+    DataFrame filter_tables would return for the pairs that are not dropped (pairs of two token-less values are
+    left out: no property speaks about them at the pair level).  Same return shape as execute()."""
+    ssj = lib.load()
+    vh = lib.hooks_module()
+    ltable = make_df(case['L'], case.get('lattr', 's'))
+    rtable = make_df(case['R'], case.get('rattr', 's'))
+    tokenizer = make_tokenizer(case['tok'])
+    fb = int(bool(tokenizer.get_return_set()))
+    lsnap, rsnap = snapshot(ltable), snapshot(rtable)
+    thr = threshold_value(case)
+    lk, rk, la, ra = case.get('lkey', 'id'), case.get('rkey', 'id'), case.get('lattr', 's'), case.get('rattr', 's')
+    raised, result = '', None
+    try:
+        cls = getattr(ssj, FILTERS[case['filt']])
+        flt = cls(tokenizer, case['meas'], thr, allow_empty=bool(case.get('ae', 1)), allow_missing=False)
+        rows = []
+        for lkey, lv in zip(ltable[lk].tolist(), ltable[la].tolist()):
+            if is_missing(lv):
+                continue
+            for rkey, rv in zip(rtable[rk].tolist(), rtable[ra].tolist()):
+                if is_missing(rv) or (not tokenizer.tokenize(lv) and not tokenizer.tokenize(rv)):
+                    continue
+                if not flt.filter_pair(lv, rv):
+                    rows.append([len(rows), lkey, rkey])
+        result = pd.DataFrame(rows, columns=['_id', case.get('lpre', 'l_') + lk, case.get('rpre', 'r_') + rk])
+    except Exception as exc:
+        raised = type(exc).__name__
+        case['_exc'] = '%s: %s' % (type(exc).__name__, str(exc)[:300])
+    if vh:
+        vh.drain()
+    obs = {'raised': raised, 'fb': fb, 'fa': int(bool(tokenizer.get_return_set())),
+           'lsame': same_as_snapshot(ltable, lsnap), 'rsame': same_as_snapshot(rtable, rsnap)}
+    return obs, result, [], (ltable, rtable)
+
+
 def execute(case):
     """Run the case; returns (obs, result_dataframe_or_None, hook_events)."""
     import joblib
@@ -270,7 +307,7 @@ def key_code(v):
 
 
 def score_code(v, meas):
-    """kind 1 NaN, 2 four-decimal integer, 3 rational, 4 integer, 9 other."""
+    """kind 1 NaN, 2 four-decimal integer, 3 rational, 4 integer, 5 / 6 rational plus / minus one ulp, 9 other."""
     if v is None or (isinstance(v, (float, np.floating)) and math.isnan(v)):
         return [1, 0, 0]
     try:
@@ -284,8 +321,13 @@ def score_code(v, meas):
         return [9, 0, 0]
     if meas == 'OVERLAP_COEFFICIENT':
         fr = Fraction(f).limit_denominator(100000)
-        if float(fr.numerator) / float(fr.denominator) == f:
+        base = float(fr.numerator) / float(fr.denominator)
+        if base == f:
             return [3, fr.numerator, fr.denominator]
+        if f == math.nextafter(base, math.inf):         # kind 5 / 6: one unit in the last place above / below
+            return [5, fr.numerator, fr.denominator]
+        if f == math.nextafter(base, -math.inf):
+            return [6, fr.numerator, fr.denominator]
         return [9, 0, 0]
     if f.is_integer() and abs(f) < 2 ** 30:
         return [4, int(f), 0]
@@ -334,6 +376,7 @@ def abstract(case, obs, result, tables, tid):
     toks = abstract_tables(case, ltable, rtable)
     book = Codebook()
     rec = {'tid': tid, 'kind': case['kind'], 'api': case.get('api', ''), 'meas': meas,
+           'pairlevel': int(str(case.get('api', '')).endswith('.filter_pair')),
            'filt': case.get('filt', 'NONE'), 'op': case['op'], 't': list(case['t']),
            'ae': int(case.get('ae', 1)), 'am': int(case.get('am', 0)), 'sc': int(case.get('sc', 0)),
            'q': int(case['tok'].get('q', 2)) if case['tok']['kind'] == 'qg' else 0,
